@@ -10,6 +10,10 @@ assert e["kind"] in ("finding", "fixed")
 with open(p, "r+") as fh:
     fcntl.flock(fh, fcntl.LOCK_EX)
     doc = json.load(fh)
+    if e["kind"] == "fixed":
+        e["record"] = "fixed: property=%s %s %s" % (e["property"], e.get("commit", "?"), e["text"])
+    else:
+        e["record"] = "KNOWN-FINDING: property=%s %s" % (e["property"], e["text"])
     doc["findings"] = [x for x in doc["findings"] if x["id"] != e["id"]] + [e]
     doc["findings"].sort(key=lambda x: (x["property"], x["id"]))
     fh.seek(0); fh.truncate()
